@@ -405,6 +405,10 @@ class ExprMixin:
             raise Unsupported('class attribute %s.%s' % (o.py, attr))
         if o.kind == 'val' and o.ty is not None and o.ty.kind in ('list', 'dict', 'set'):
             o = sv_ref(self.as_ref(o, st, '.' + attr), NonOpt(o.ty))
+        if o.kind == 'val' and (o.ty is None or o.ty.kind == 'val') and attr in ('append', 'extend'):
+            # dynamically typed value used as a list: anything else has no such method (AttributeError exit)
+            self.side_raise(st, 'AttributeError', z3.Not(z3.And(is_VRef(o.t), st.h.cls(v_a(o.t)) == CLS_LIST)), '.%s on non-list' % attr)
+            o = sv_ref(v_a(o.t), List(None))
         if o.kind == 'ref' and o.cls in ('list', 'dict', 'set'):
             return SV('func', py=('bound', o, attr))
         if o.kind == 'str':
@@ -704,7 +708,64 @@ class ExprMixin:
         st.set_arr('D_size', z3.Store(st.h.arr['D_size'], a, n))
         return sv_ref(a, T('set', cls='set', elem=self._elem_of(out)))
 
+    def _listcomp_of_dicts(self, e, st):
+        """[{k1: f1(x), ...} for x in L] — a comprehension whose element is a dict display with constant keys and
+        non-allocating value expressions: element j of the result is a NEW dict object (address base + j) with those entries
+        for x = L[j]; nothing else changes."""
+        target, it, ifs = self._comp_parts(e)
+        l, elem = self.bound_iter(self.ev(it, st), st)
+        h = st.h
+        u = self.uid()
+        xv = z3.Const('x!ld%d' % u, Val)
+        x_sv = from_val(xv, elem)
+        typing = tag_pred(xv, elem) if (elem is not None and not elem.opt and elem.kind != 'val') else z3.BoolVal(True)
+        inl = h.bag(l, xv) > 0
+        keys = [self.ev(k, st) for k in e.elt.keys]
+        vals, facts = self.eval_with_binding(target, x_sv, list(e.elt.values), st, bound=xv, guard=z3.And(typing, inl))
+        if facts:
+            st.assume(z3.ForAll([xv], z3.Implies(z3.And(typing, inl), z3.And(*facts)), patterns=[h.bag(l, xv)]))
+        n = self.list_len(l, st)
+        base = self.fresh(z3.IntSort(), 'ldbase')
+        st.assume(base == h.alloc)
+        j = z3.Int('j!ld%d' % u)
+        hasrow, valrow = EMPTY_HAS, z3.K(Val, VNone)
+        for k_sv, v_sv in zip(keys, vals):
+            hasrow = z3.Store(hasrow, to_val(k_sv), z3.BoolVal(True))
+            valrow = z3.Store(valrow, to_val(k_sv), to_val(v_sv))
+        new = {}
+        for an in ('D_has', 'D_val', 'D_size', 'D_keyat', 'cls', 'own_obj', 'orig'):
+            new[an] = self.fresh(h.arr[an].sort(), an + '!ld')
+        # the list object itself comes after the element dicts
+        R = base + n
+        A_ = self.fresh(SeqSort, 'ldat')
+        B_ = self.fresh(BagSort, 'ldbag')
+        obj = lambda q: v_a(z3.Select(A_, q))
+        st.assume(z3.ForAll([j], z3.Implies(z3.And(0 <= j, j < n), z3.And(
+            z3.Select(A_, j) == VRef(base + j), z3.Select(B_, z3.Select(A_, j)) == 1,
+            z3.Select(new['D_has'], obj(j)) == hasrow,
+            z3.Select(new['D_val'], obj(j)) == z3.substitute(valrow, (xv, h.at(l, j))),
+            z3.Select(new['D_size'], obj(j)) == len(set(str(to_val(k)) for k in keys)),
+            z3.Select(new['cls'], obj(j)) == CLS_DICT, z3.Select(new['own_obj'], obj(j)) == -1, z3.Select(new['orig'], obj(j)) == obj(j))),
+            patterns=[z3.Select(A_, j)]))
+        v_ = z3.Const('v!ld%d' % u, Val)
+        st.assume(z3.ForAll([v_], z3.And(z3.Select(B_, v_) >= 0, z3.Implies(z3.Select(B_, v_) > 0, z3.And(
+            is_VRef(v_), v_a(v_) >= base, v_a(v_) < base + n, v_ == z3.Select(A_, v_a(v_) - base), z3.Select(B_, v_) == 1))), patterns=[z3.Select(B_, v_)]))
+        x_ = z3.Const('x!lf%d' % u, Addr)
+        for an in new:
+            st.assume(z3.ForAll([x_], z3.Implies(z3.Or(x_ < base, x_ >= base + n), z3.Select(new[an], x_) == z3.Select(h.arr[an], x_)),
+                                patterns=[z3.Select(new[an], x_), z3.Select(h.arr[an], x_)]))
+            st.set_arr(an, new[an])
+        st.h = st.h.with_(alloc=base + n)
+        r = self.new_list(st, Dict(T.str, T.val))
+        st.assume(r.t == R)
+        st.set_arr('L_len', z3.Store(st.h.arr['L_len'], r.t, n))
+        st.set_arr('L_bag', z3.Store(st.h.arr['L_bag'], r.t, B_))
+        st.set_arr('L_at', z3.Store(st.h.arr['L_at'], r.t, A_))
+        return r
+
     def ev_ListComp(self, e, st):
+        if isinstance(e.elt, ast.Dict) and e.elt.keys and all(isinstance(k, ast.Constant) for k in e.elt.keys) and not self._comp_parts(e)[2]:
+            return self._listcomp_of_dicts(e, st)
         target, it, ifs = self._comp_parts(e)
         l, elem = self.bound_iter(self.ev(it, st), st)
         h = st.h
